@@ -405,6 +405,7 @@ class EnsembleDequeue(Unit):
         st.ghost['puts'] = ()
         st.ghost['slot_writes'] = ()
         st.ghost['n_at_get'] = None
+        st.ghost['ctor_exc'] = None
         ex.globals['RemoteException'] = ExcClass('RemoteException')
         self.mk_remote = mk_remote(ex)
         return st
@@ -419,7 +420,12 @@ class EnsembleDequeue(Unit):
                     raise Unsupported('EnsembleError of a non-entry')
                 exc = ensemble_error(z3.Select(self.cat.get(s, 'slots'), z.uid), z3.Select(self.cat.get(s, 'n'), z.uid))
                 s = s.fork().assume(V.ucls(exc) == V.K['EnsembleError'], *V.cls_facts(exc))
-                return [('ok', s, exc)]
+                # building the message calls repr() on the first failed member -- user code (an exception class with a raising __repr__): the constructor itself may
+                # fail with any Exception; the request must still be answered (with that failure), and the collecting thread must survive
+                bad = fresh('ensemble_error_ctor_failure')
+                s2 = s.fork().assume(V.isinst(bad, 'Exception'), z3.Not(V.isinst(bad, 'EnsembleError')), *V.cls_facts(bad))
+                s2.ghost['ctor_exc'] = bad
+                return [('ok', s, exc), ('raise', s2, bad)]
             return ex.bind(ex.evargs(e, st), f)
         if src == 'all' and len(e.args) == 1 and isinstance(e.args[0], ast.GeneratorExp):
             g = e.args[0]
@@ -468,6 +474,8 @@ class EnsembleDequeue(Unit):
         err = remote(ensemble_error(slots, n))
         this = z3.Select(slots, mi)
         failed_fast = z3.And(self.ff, V.isinst(this, 'RemoteException'))
+        if st.ghost.get('ctor_exc') is not None:
+            err = remote(st.ghost['ctor_exc'])           # the error object could not be built: the request is answered with that failure instead
         want = z3.If(failed_fast, err, z3.If(all_remote(slots), err, box(ex, Slots(ex, self.cat, uid).val_in(st, self.nn))))
         ex.oblige(st, f'line {node.lineno}: [C02/C04] the answer goes out under the uid just received (own uid), after its entry was removed (so: once), and is: with fail_fast, at the first exception value, '
                       'RemoteException(EnsembleError(entry)); otherwise, when all members have answered, the list of the nn slots -- or RemoteException(EnsembleError(entry)) exactly when every slot is a RemoteException',
@@ -483,6 +491,7 @@ class EnsembleDequeue(Unit):
             h.ghost['puts'] = ()
             h.ghost['slot_writes'] = ()
             h.ghost['n_at_get'] = None
+            h.ghost['ctor_exc'] = None
 
         def back_inner(s, ex):
             cur = s.ghost['cur']
